@@ -550,6 +550,32 @@ func (r *walRun) checkDir() {
 	}
 }
 
+// checkDirLive: the same comparison on a RUNNING WAL (C13, first clause).  Only called at
+// points where no background rotation can be in flight (DeleteRange of a non-empty range
+// and the W barrier both await it under the write lock), no reader holds an older state
+// (the workload is sequential) and no I/O fault was ever injected (a failed Delete is
+// only logged by the WAL).
+func (r *walRun) checkDirLive(what string) {
+	if r.cfs == nil || r.cfs.meta == nil || r.w == nil || r.everFaulted || r.cfs.faultIn >= 0 {
+		return
+	}
+	r.c.stat("live_dir_checks")
+	want := map[string]bool{}
+	for _, si := range r.cfs.meta.Segments {
+		want[segment.FileName(si)] = true
+	}
+	names, _ := r.cfs.ListDir("d")
+	for _, n := range names {
+		if !want[n] {
+			r.c.witness("C13", "unlisted-file-in-running-wal", "after "+what+" file "+n+" is not listed in the metadata but is still in the directory", r.line)
+		}
+		delete(want, n)
+	}
+	for n := range want {
+		r.c.witness("C13", "listed-file-missing-in-running-wal", "after "+what+" segment "+n+" is listed but has no file", r.line)
+	}
+}
+
 func execWal(c *ctx, line string) (obs string) {
 	done := make(chan string, 1)
 	go func() {
@@ -715,7 +741,9 @@ func (r *walRun) run() string {
 			}
 		case "W":
 			if r.w != nil {
-				r.w.DeleteRange(math.MaxUint64, math.MaxUint64)
+				if r.w.DeleteRange(math.MaxUint64, math.MaxUint64) == nil {
+					r.checkDirLive("the rotation barrier")
+				}
 			}
 		case "D":
 			mn, mx := parseU(ops[i+1]), parseU(ops[i+2])
@@ -743,6 +771,9 @@ func (r *walRun) run() string {
 					a.del(mn, mx)
 				}
 				r.alts = dedupAlts(r.alts)
+				if mn <= mx {
+					r.checkDirLive("DeleteRange")
+				}
 				removed := uint64(len(before.ents) - len(r.alts[0].ents))
 				if removed > 0 {
 					if mn <= before.first {
